@@ -56,8 +56,8 @@ def run(ctx):
     L.explore(ctx, rep, "C10", [c for c in corpus if c["type"] == "recv"], "corpus-recv", ORACLES, nontrivial)
     L.explore(ctx, rep, "C10", [c for c in corpus if c["type"] == "send"], "corpus-send", ORACLES, nontrivial)
     r = ctx.sub_rng("gen")
-    b1 = L.explore(ctx, rep, "C10", [L.gen_send(r) for _ in range(ctx.n(600, 20000))], "send", ORACLES, nontrivial)
-    b2 = L.explore(ctx, rep, "C10", [L.gen_recv(r, "c10") for _ in range(ctx.n(700, 25000))], "recv", ORACLES, nontrivial)
+    b1 = L.explore(ctx, rep, "C10", [L.gen_send(r) for _ in range(ctx.n(600, 8000))], "send", ORACLES, nontrivial)
+    b2 = L.explore(ctx, rep, "C10", [L.gen_recv(r, "c10") for _ in range(ctx.n(700, 14000))], "recv", ORACLES, nontrivial)
     if (b1 or b2 or any(not o["ok"] for o in rep.obligations)) and not rep.failures:
         r2 = ctx.sub_rng("search")
         L.explore(ctx, rep, "C10", [L.gen_send(r2) for _ in range(ctx.n(3000, 30000))], "search-send", ORACLES, nontrivial)
